@@ -30,6 +30,12 @@ CLAIMS["C01"] = dict(
 CLAIMS["C03"] = dict(
     text="The symbolic bytes produced by the real pack() are decoded by an independent strict RFC 4511/X.690 decoder (oracles/ref_ber.py) running on the same solver variables; every well-formedness condition and the equality of the recovered abstract message with the message's fields is a z3 validity query. Symmetric encoder/decoder mistakes are therefore visible.",
     ref="DESIGN.md 3/C03", technique="symbolic execution of the real encoder (SX) + independent reference decoder as oracle, z3 validity queries")
+CLAIMS["C02"] = dict(
+    text="One-step chunking lemma with every octet symbolic (session with residue R receiving D behaves exactly like a session without residue receiving R+D: messages, exception class, state, bookkeeping, residue), which by induction covers any number of cuts; plus streams of 1-3 messages with symbolic contents cut at every position (pairs in the thorough tier) compared with single delivery; plus the caller-overwrites-its-buffer aliasing probe with true view semantics.",
+    ref="DESIGN.md 3/C02", technique="symbolic execution of the real receive path on two sessions (SX) + z3 outcome-equivalence queries")
+CLAIMS["C04"] = dict(
+    text="The canonical encoding of each skeleton (symbolic contents) is parsed into a generic TLV tree and re-encoded with the freedoms BER/RFC 4511 permit (long-form lengths per node and globally, TRUE as a symbolic non-zero octet, explicit DEFAULT values, one unrecognised trailing element with symbolic tag/content after each extensible SEQUENCE); z3 proves the library decodes every variant to the original message.",
+    ref="DESIGN.md 3/C04", technique="symbolic execution of the real decoder on re-encoded variants (SX) + z3 validity queries")
 PENDING = {}
 
 def main():
